@@ -7,7 +7,7 @@ class Driver(ChanDriver):
     PID = 'C03'
     PROP = 'c03_ok'
     PROFILES = [('consume', 150, 2000)]
-    CONC = [('consume', concdrv.gen_consume, 'conc_consume_ok', 40, 600)]
+    CONC = [('consume', concdrv.gen_consume, 'conc_consume_ok', 100, 1000)]
     RULE = ("scenarios from the profiles ['consume'] of harness/changen.py: sequences of "
             'application operations on 1-3 channels, each with a script of '
             'inbound frame batches (replies, deliveries, returns, cancels, '
